@@ -60,6 +60,7 @@ type spyState struct {
 	name      string
 	typ       thrift.TMessageType
 	bodyRead  bool // ReadStructBegin reached (exception or result body)
+	protocols int  // protocols made by the factory during the call
 }
 
 type spyProtocol struct {
@@ -83,6 +84,7 @@ type spyFactory struct {
 }
 
 func (f *spyFactory) GetProtocol(t thrift.TTransport) thrift.TProtocol {
+	f.st.protocols++ // 1: prepareMessage; 2: processReply was entered
 	return &spyProtocol{TProtocol: f.inner.GetProtocol(t), st: f.st}
 }
 
@@ -163,6 +165,16 @@ func realPRP(method string, reply []byte) prpRun {
 		r.viol = append(r.viol, "FStandardClient.Call "+o+" on a received reply")
 		return r
 	}
+	stage, hdrs, viol := classifyReply(st, method, err, fctx, opidBefore)
+	r.viol = append(r.viol, viol...)
+	r.out = fmt.Sprintf("stage=%s hdrs=%s", stage, hdrs)
+	return r
+}
+
+// classifyReply: the stage processReply got to (from what the spying protocol saw), the response headers the
+// reply added to the caller's context, and the property violations that need no reference.
+func classifyReply(st *spyState, method string, err error, fctx frugal.FContext, opidBefore string) (string, string, []string) {
+	var r struct{ viol []string }
 	stage := ""
 	app, isApp := err.(thrift.TApplicationException)
 	switch {
@@ -211,8 +223,7 @@ func realPRP(method string, reply []byte) prpRun {
 		}
 		hdrs[k] = v
 	}
-	r.out = fmt.Sprintf("stage=%s hdrs=%s", stage, pairs(hdrs))
-	return r
+	return stage, pairs(hdrs), r.viol
 }
 
 // ---------- generator: a valid reply + one mutation, or raw bytes ----------
